@@ -607,7 +607,12 @@ pub fn explore_from(ctx: &Ctx, base_case: &FaultCase, base: Option<&(Vec<u8>, BT
     let reference = run_case(base_case, base, None);
     stats.runs += 1;
     stats.calls += reference.calls;
-    if !reference.problems.is_empty() || reference.results.iter().any(|r| r.1.is_err()) {
+    if !reference.problems.is_empty() {
+        // an oracle fails without any fault injected: a violation in its own right
+        report_problems(ctx, base_case, &reference);
+        return stats;
+    }
+    if reference.results.iter().any(|r| r.1.is_err()) {
         let first_err = reference.results.iter().find(|r| r.1.is_err());
         ctx.report(Violation {
             class: "machinery".into(),
